@@ -440,7 +440,7 @@ register('C08', corr=trace_corr('its', 'itscases', ITS_N, its_rel({'execute', 'd
          assumptions=['callbacks run to completion as far as gas is concerned (gas is not modelled)', 'the destination contract is abstracted to an outcome'])
 register('C13', corr=trace_corr('its', 'itscases', ITS_N, its_rel({'execute', 'transfer', 'callContract', 'setTrusted', 'removeTrusted', 'linkToken', 'deployRemote', 'deployRemoteCanonical', 'props'}, 13), ITS_RULE, its_nontrivial, monitor=_itsmon),
          assumptions=[])
-register('C14', corr=trace_corr('its', 'itscases', ITS_N, its_rel({'registerCanonical', 'registerCustom', 'deployToken', 'execute', 'linkToken', 'deployRemote', 'deployRemoteCanonical', 'props', 'upgrade'}, 11), ITS_RULE, its_nontrivial, monitor=_itsmon),
+register('C14', corr=trace_corr('its', 'itscases', ITS_N, its_rel({'registerCanonical', 'registerCustom', 'deployToken', 'execute', 'linkToken', 'deployRemote', 'deployRemoteCanonical', 'props', 'upgrade', 'view'}, 11), ITS_RULE, its_nontrivial, monitor=_itsmon),
          assumptions=['injectivity of the derivations is stated on preimages; at hash level it needs collision freedom of keccak-256'])
 register('C17', corr=trace_corr('its', 'itscases', ITS_N, its_rel({'registerMetadata', 'deployRemote', 'deployRemoteCanonical', 'props', 'linkToken'}, 29), ITS_RULE, its_nontrivial, monitor=_itsmon),
          assumptions=['the ESDT system contract lookup is abstracted to its result (success with name/type/decimals, or error)',
